@@ -149,7 +149,8 @@ class FnEnvFlow:
             if not p["p"] and p["l"] in out and s["rv"]["k"] == "use" and s["rv"]["x"]["k"] in ("copy", "move"):
                 x = s["rv"]["x"]
                 bt = body.local_ty(x["l"])
-                if bt["k"] == "tuple":
+                if bt["k"] == "tuple" or (bt["k"] == "adt" and bt["d"] != ENV and x["p"]):
+                    # out of the tuple / result struct of a call
                     src = None
                     for d in self.P.defs.get(x["l"], []):
                         if d[0] == "assign" and d[3]["rv"]["k"] == "use":
@@ -283,6 +284,10 @@ def closure_rows(F, fn, parent_flow):
                 for x in pt["xs"]:
                     if "t" in x and body.ty(x["t"]).get("d") == clo.q:
                         child = parent_flow.ast_path(pt["xs"][0])
+                        # the part of the path walked inside the closure, from its parameter (the mapped element) on
+                        inner = FnEnvFlow(F, clo).ast_path(t["xs"][1])
+                        if inner and isinstance(inner[0], str) and inner[0].startswith("arg") and len(inner) > 1:
+                            child = tuple(child) + tuple(inner[1:])
                         # captured env: upvar of reference type to Env -> find the aggregate building the closure
                         envdesc = ("?",)
                         for b2, si, s in body.assigns():
